@@ -42,10 +42,29 @@ class FakeFeatureDB:
         for i in (1, 2):
             yield FakeRecord(self.content, i)
 
+    def features_of_type(self, featuretype, order_by=None):
+        # the gene records the REAL db2gtf walks over (two genes; their text carries the database content)
+        for i in (1, 2):
+            yield FakeGene(self.content, i)
+
     def children(self, record, order_by=None, featuretype=None):
+        if isinstance(record, FakeGene):
+            return []
         if featuretype == "exon":
             return [SimpleNamespace(start=1000 * record.i + 1, end=1000 * record.i + 200), SimpleNamespace(start=1000 * record.i + 401, end=1000 * record.i + 600)]
         return []
+
+
+class FakeGene:
+    def __init__(self, content, i):
+        self.text = "chr1\tSYN\tgene\t%d\t%d\t.\t+\t.\tgene_id \"g%d<%s>\";" % (1000 * i, 1000 * i + 600, i, content)
+
+    def __str__(self):
+        return self.text
+
+
+def expected_gtf(db_content):
+    return "".join(FakeGene(db_content, i).text + "\n" for i in (1, 2))
 
 
 class FakeRecord:
@@ -100,6 +119,21 @@ def make_process(pid, gtf, outdir, clean_start=False, with_mapper_caches=False, 
         args = SimpleNamespace(clean_start=clean_start, complete_genedb=complete, gtf_check=False, genedb=gtf, output=outdir,
                                genedb_filename=os.path.join(outdir, os.path.splitext(os.path.basename(gtf))[0] + ".db"))
         isoquant.set_configs_directory(args)
+        if with_mapper_caches == "stargtf":
+            # STARlong route: the run was given a DATABASE (args.genedb) and the aligner needs a GTF: cached conversion or a fresh one
+            import src.read_mapper as RM
+            res = {}
+            args.genedb = gtf          # the process spec's annotation is a database file here
+            args.no_junc_bed = False
+            with open(args.genedb, "r") as f:
+                res["db_content"] = f.read()
+            ann = RM.find_annotation("starlong", args)
+            with open(ann, "r") as f:
+                res["star_gtf"] = f.read()
+            res["star_gtf_path"] = ann
+            with open(args.genedb, "r") as f:
+                res["db_content_end"] = f.read()
+            return res
         # the entry point the pipeline uses (isoquant.run_pipeline): args.genedb is the annotation, args.genedb_filename the target
         db = G.convert_gtf_to_db(args)
         g = os.path.abspath(gtf)
@@ -140,12 +174,17 @@ def make_process(pid, gtf, outdir, clean_start=False, with_mapper_caches=False, 
             isoquant.remove_previous_run_locks(args)
             args.index = V + "data/ref1.mmi"
 
+            with open(fq, "r") as f:
+                res["fq_start"] = f.read()
+
             def fake_align(aligner, fastq_file, annotation_file, a, label, out_dir):
                 bam = os.path.join(out_dir, "%s_reads1_%d.bam" % (label, os.getpid()))
+                with open(fastq_file, "r") as f:
+                    reads = f.read()
                 with open(bam, "w") as f:
                     f.write("bam-of:")
                     f.flush()
-                    f.write(os.path.basename(fastq_file) + ";end")
+                    f.write(reads + ";end")
                 return bam
             RM.align_fasta = fake_align
             RM.find_annotation = lambda aligner, a: None
@@ -155,6 +194,8 @@ def make_process(pid, gtf, outdir, clean_start=False, with_mapper_caches=False, 
             res["bam_path"] = data.samples[0].file_list[0][0]
             with open(res["bam_path"], "r") as f:
                 res["bam_content"] = f.read()
+            with open(fq, "r") as f:
+                res["fq_end"] = f.read()
         elif with_mapper_caches == "annotation":
             # FASTQ mode: the aligner step asks for the junction BED of the annotation (cached one or a fresh export) and reads it
             import src.read_mapper as RM
@@ -261,12 +302,33 @@ def scenario(name):
             v.dirs.add(o(1) + "/OUT")
             v.dirs.add(aux)
             bam = aux + "/OUT_reads1_7.bam"
-            v.add(bam, "bam-of:reads1.fq;end", mtime=34.0)
+            v.add(bam, "bam-of:x;end", mtime=34.0)
             v.add(aux + "/OUT_chr1_lock", "", mtime=34.5)
             key = "%s_aligned_to_%s" % (V + "data/reads1.fq", V + "data/ref1.mmi")
             v.files[CFG + "/alignment_config.json"].content = json.dumps({key: {
                 "alignment_fpath": bam, "index_mtime": 21.0, "fastq_mtime": 21.0, "bam_mtime": 34.0, "ann_mtime": ""}})
         return [(1, g(1), o(1), True, "alignment"), (2, g(1), o(2), False, "alignment")], init
+    if name == "star-gtf-two-databases-same-mtime":
+        # two runs on two DIFFERENT databases that carry the same time stamp (copies made with cp -p / rsync -t / from one archive)
+        def init(v):
+            base_init(v, cfg_exists=True)
+            v.add(V + "data/a.db", "db-A", mtime=40.0)
+            v.add(V + "data/b.db", "db-B", mtime=40.0)
+        return [(1, V + "data/a.db", o(1), False, "stargtf"), (2, V + "data/b.db", o(2), False, "stargtf")], init
+    if name == "star-gtf-rewrite-vs-cached-reader":
+        # the GTF export of a.db lies in out1 (an earlier run) and is registered; run 1 is a --clean_start rerun in out1 (exports again,
+        # to the same path), run 2 (out2) is handed the cached export and reads it
+        def init(v):
+            base_init(v, cfg_exists=True)
+            v.add(V + "data/a.db", "db-A", mtime=40.0)
+            v.add(o(1) + "/a.gtf", expected_gtf("db-A"), mtime=41.0)
+            v.files[CFG + "/db_config.json"].content = json.dumps({o(1) + "/a.gtf": {"genedb": V + "data/a.db", "gtf_mtime": 41.0, "db_mtime": 40.0,
+                                                                                    "complete_db": True}})
+        return [(1, V + "data/a.db", o(1), True, "stargtf"), (2, V + "data/a.db", o(2), False, "stargtf")], init
+    if name == "reads-replaced-during-alignment":
+        # the read file is replaced by another one while run 1 aligns it; run 2 works on the same path
+        return [(1, g(1), o(1), False, "alignment"), ("editor", V + "data/reads1.fq", "x-second-flowcell"), (2, g(1), o(2), False, "alignment")], \
+            lambda v: base_init(v, cfg_exists=True)
     if name == "alignment-two-fresh":
         return [(1, g(1), o(1), False, "alignment"), (2, g(1), o(2), False, "alignment")], lambda v: base_init(v, cfg_exists=True)
     if name == "reference-replaced-during-indexing":
@@ -348,6 +410,11 @@ def make_check(specs):
                 out.append(("process-failed:%s" % type(e).__name__, "process %d (%s) died with %r" % (pid, os.path.basename(gtf), e)))
                 continue
             r = s.results[i]
+            if mapper == "stargtf":
+                if r["star_gtf"] not in (expected_gtf(r["db_content"]), expected_gtf(r["db_content_end"])):
+                    out.append(("foreign-or-partial-gtf", "process %d hands %s to the aligner whose content is %r, expected the complete export "
+                                "of its database %r" % (pid, r["star_gtf_path"], r["star_gtf"][:90], r["db_content"])))
+                continue
             # the run's own input: the annotation as it was at some moment of the run (it can change only through an editor actor)
             exps = ["db-from:%s@%s%s" % (gtf, m, "" if r.get("complete", True) else ":inferred") for m in (r["gtf_mtime"], r["gtf_mtime_start"])]
             exp = exps[0]
@@ -359,7 +426,7 @@ def make_check(specs):
                     out.append(("foreign-or-partial-index", "process %d loads the index %s whose content is %r, expected the complete index of its "
                                 "reference" % (pid, r["index_path"], r["index_content"])))
             elif mapper == "alignment":
-                if r["bam_content"] != "bam-of:reads1.fq;end":
+                if r["bam_content"] not in ("bam-of:%s;end" % r["fq_start"], "bam-of:%s;end" % r["fq_end"]):
                     out.append(("foreign-or-partial-alignment", "process %d reads the alignment %s whose content is %r, expected the complete "
                                 "alignment of its reads" % (pid, r["bam_path"], r["bam_content"])))
             elif mapper == "annotation":
@@ -425,6 +492,9 @@ def run(ctx):
     jobs.append(("index-two-fresh", 2 if quick else 3, 60000 if quick else 400000))
     jobs.append(("clean-start-rerun-vs-cached-alignment", 3 if quick else 4, 60000 if quick else 400000))
     jobs.append(("alignment-two-fresh", 2 if quick else 3, 60000 if quick else 400000))
+    jobs.append(("reads-replaced-during-alignment", 1 if quick else 2, 60000 if quick else 400000))
+    jobs.append(("star-gtf-two-databases-same-mtime", 2 if quick else 3, 60000 if quick else 400000))
+    jobs.append(("star-gtf-rewrite-vs-cached-reader", 3 if quick else 4, 60000 if quick else 400000))
     jobs.append(("reference-replaced-during-indexing", 1 if quick else 2, 60000 if quick else 400000))
     jobs.append(("gtf-rewritten-during-conversion", 2 if quick else 3, 60000 if quick else 400000))
     jobs.append(("three-processes", 1 if quick else 2, 60000 if quick else 400000))
